@@ -30,61 +30,152 @@ DROP = ("ImplicitCastExpr", "ParenExpr", "ExprWithCleanups", "MaterializeTempora
         "ConstantExpr")
 
 
+# C++ operator precedence (higher binds tighter); used to print parentheses exactly where the
+# expression tree needs them, so that the canonical text determines the tree
+PREC = {"*": 13, "/": 13, "%": 13, "+": 12, "-": 12, "<<": 11, ">>": 11, "<": 9, "<=": 9, ">": 9, ">=": 9,
+        "==": 8, "!=": 8, "&": 7, "^": 6, "|": 5, "&&": 4, "||": 3}
+FLIP = {"<": ">", ">": "<", "<=": ">=", ">=": "<="}
+LITERALS = ("IntegerLiteral", "FloatingLiteral", "CXXNullPtrLiteralExpr", "CXXBoolLiteralExpr")
+# local `const` variables of the translated part whose initialiser is a pure expression: name -> AST of the
+# initialiser; a reference to such a variable is rendered as its initialiser (set by Tr)
+LOCALS = {}
+ON_LOCAL_USE = [None]     # callback(name): staleness check of the translator
+
+
+def unwrap(n):
+    while n.get("kind") in DROP:
+        ks = kids(n)
+        if len(ks) != 1:
+            raise TranslateError("wrapper %s with %d children" % (n.get("kind"), len(ks)))
+        n = ks[0]
+    if n.get("kind") == "CXXConstructExpr":
+        args = [c for c in kids(n) if c.get("kind") != "CXXDefaultArgExpr"]
+        if len(args) == 1:
+            return unwrap(args[0])
+    if n.get("kind") == "DeclRefExpr" and n["referencedDecl"].get("name") in LOCALS:
+        nm = n["referencedDecl"]["name"]
+        if ON_LOCAL_USE[0]:
+            ON_LOCAL_USE[0](nm)
+        return unwrap(LOCALS[nm])
+    return n
+
+
 def render(n):
-    """canonical text of an expression (casts, temporaries, default arguments dropped)"""
+    return rp(n, 0)[0]
+
+
+def par(tp, minprec):
+    return "(" + tp[0] + ")" if tp[1] < minprec else tp[0]
+
+
+def rp(n, _unused=0):
+    """(canonical text, precedence) of an expression: casts, temporaries and default arguments dropped, local
+    pure constants replaced by their initialisers, `0 < x` written `x > 0`, `nullptr != p` written
+    `p != nullptr`, `!(a % b)` written `a % b == 0`; parentheses only where the tree needs them"""
+    n = unwrap(n)
     k = n.get("kind")
     ks = kids(n)
-    if k in DROP:
-        if len(ks) != 1:
-            raise TranslateError("wrapper %s with %d children" % (k, len(ks)))
-        return render(ks[0])
     if k == "CXXConstructExpr":
         args = [c for c in ks if c.get("kind") != "CXXDefaultArgExpr"]
-        if len(args) == 1:
-            return render(args[0])
-        return "ctor(" + ", ".join(render(c) for c in args) + ")"
+        return "ctor(" + ", ".join(render(c) for c in args) + ")", 16
     if k == "DeclRefExpr":
-        return n["referencedDecl"].get("name", "?")
+        return n["referencedDecl"].get("name", "?"), 17
     if k == "MemberExpr":
-        base = render(ks[0]) if ks else "this"
-        return base + ("->" if n.get("isArrow") else ".") + n.get("name", "?")
+        base = par(rp(ks[0]), 16) if ks else "this"
+        return base + ("->" if n.get("isArrow") else ".") + n.get("name", "?"), 16
     if k == "CXXOperatorCallExpr":
         op = render(ks[0])
         if op == "operator->":
-            return render(ks[1])
+            return rp(ks[1])
         if op == "operator*" and len(ks) == 2:
-            return "*" + render(ks[1])
+            return "*" + par(rp(ks[1]), 15), 15
         if op in ("operator!=", "operator==") and len(ks) == 3:
-            return "%s %s %s" % (render(ks[1]), op[8:], render(ks[2]))
-        return op + "(" + ", ".join(render(c) for c in ks[1:]) + ")"
+            a, b = ks[1], ks[2]
+            if unwrap(a).get("kind") in LITERALS and unwrap(b).get("kind") not in LITERALS:
+                a, b = b, a
+            return "%s %s %s" % (par(rp(a), 8), op[8:], par(rp(b), 9)), 8
+        return op + "(" + ", ".join(render(c) for c in ks[1:]) + ")", 16
     if k == "CXXMemberCallExpr":
         callee = render(ks[0])
         if callee.endswith("operator bool") or re.search(r"(->|\.)operator bool$", callee):
-            return re.sub(r"(->|\.)operator bool$", "", callee)
+            return re.sub(r"(->|\.)operator bool$", "", callee), 16
         args = [c for c in ks[1:] if c.get("kind") != "CXXDefaultArgExpr"]
-        return callee + "(" + ", ".join(render(c) for c in args) + ")"
+        return callee + "(" + ", ".join(render(c) for c in args) + ")", 16
     if k == "CallExpr":
         args = [c for c in ks[1:] if c.get("kind") != "CXXDefaultArgExpr"]
-        return render(ks[0]) + "(" + ", ".join(render(c) for c in args) + ")"
+        return par(rp(ks[0]), 16) + "(" + ", ".join(render(c) for c in args) + ")", 16
     if k == "BinaryOperator":
-        return "%s %s %s" % (render(ks[0]), n["opcode"], render(ks[1]))
+        op = n["opcode"]
+        a, b = ks
+        if op in FLIP and unwrap(a).get("kind") in LITERALS and unwrap(b).get("kind") not in LITERALS:
+            a, b, op = b, a, FLIP[op]
+        if op in ("==", "!=") and unwrap(a).get("kind") in LITERALS and unwrap(b).get("kind") not in LITERALS:
+            a, b = b, a
+        p = PREC.get(op, 2)
+        if p == 2:      # assignment and compound assignment: right associative
+            return "%s %s %s" % (par(rp(a), 3), op, par(rp(b), 2)), 2
+        return "%s %s %s" % (par(rp(a), p), op, par(rp(b), p + 1)), p
     if k == "UnaryOperator":
-        return (render(ks[0]) + n["opcode"]) if n.get("isPostfix") else (n["opcode"] + render(ks[0]))
+        op = n["opcode"]
+        if n.get("isPostfix"):
+            return par(rp(ks[0]), 16) + op, 16
+        inner = unwrap(ks[0])
+        if op == "!" and inner.get("kind") == "BinaryOperator" and inner.get("opcode") == "%":
+            return "%s == 0" % par(rp(inner), 9), 8
+        return op + par(rp(ks[0]), 15), 15
     if k == "ConditionalOperator":
-        return "%s ? %s : %s" % tuple(render(c) for c in ks)
+        c, a, b = ks
+        return "%s ? %s : %s" % (par(rp(c), 3), par(rp(a), 2), par(rp(b), 2)), 2
     if k == "IntegerLiteral":
-        return str(int(n["value"]))
+        return str(int(n["value"])), 17
     if k == "FloatingLiteral":
-        return str(n["value"])
+        return str(n["value"]), 17
     if k == "StringLiteral":
-        return n["value"]
+        return n["value"], 17
     if k == "CXXNullPtrLiteralExpr":
-        return "nullptr"
+        return "nullptr", 17
     if k == "CXXBoolLiteralExpr":
-        return "true" if n.get("value") else "false"
+        return ("true" if n.get("value") else "false"), 17
     if k == "CXXDeleteExpr":
-        return "delete " + render(ks[0])
+        return "delete " + par(rp(ks[0]), 15), 15
     raise TranslateError("expression kind %s not understood" % k)
+
+
+IMPURE_KINDS = ("CallExpr", "CXXMemberCallExpr", "CXXOperatorCallExpr", "CXXNewExpr", "CXXDeleteExpr", "CXXConstructExpr",
+                "CXXThrowExpr", "LambdaExpr", "CompoundAssignOperator", "StmtExpr")
+
+
+def impure_reason(n):
+    """None when the expression has no side effect and does not read Display::abort (only literals, variables,
+    arithmetic/comparison/logical operators, ?:, casts); otherwise why not"""
+    k = n.get("kind")
+    if k in IMPURE_KINDS:
+        return "contains a %s" % k
+    if k == "BinaryOperator" and (n.get("opcode") == "," or "=" in n.get("opcode", "") and n.get("opcode") not in ("==", "!=", "<=", ">=")):
+        return "contains the operator %s" % n.get("opcode")
+    if k == "UnaryOperator" and n.get("opcode") in ("++", "--", "*", "&"):
+        return "contains the operator %s" % n.get("opcode")
+    if k == "DeclRefExpr":
+        rd = n["referencedDecl"]
+        if rd.get("name") == "abort":
+            return "reads Display::abort"
+        if rd.get("kind") not in ("VarDecl", "ParmVarDecl", "EnumConstantDecl"):
+            return "refers to a %s" % rd.get("kind")
+    if k == "MemberExpr":
+        return "contains a member access"
+    for c in kids(n):
+        r = impure_reason(c)
+        if r:
+            return r
+    return None
+
+
+def names_in(n, acc):
+    if n.get("kind") == "DeclRefExpr":
+        acc.add(n["referencedDecl"].get("name"))
+    for c in kids(n):
+        names_in(c, acc)
+    return acc
 
 
 CALLS = {
@@ -115,12 +206,16 @@ CALLS = {
 }
 STATUS = [re.compile(r"^printText\(status_string\(grid_t1, (0|simulationstep / steps), rotations\)(, false(, updatetime)?)?\)$")]
 GUARDS = {
-    "hdf_file != nullptr": "GHdf", "wake_field != nullptr": "GWake", "wkm != nullptr": "GWake",
+    "hdf_file != nullptr": "GHdf", "hdf_file": "GHdf",
+    "wake_field != nullptr": "GWake", "wkm != nullptr": "GWake", "wake_field": "GWake", "wkm": "GWake",
     "h5save == 0": "GSave0",
     "renormalize > 0 && simulationstep % renormalize == 0": "GRenorm",
     "outstep > 0 && simulationstep % outstep == 0": "GOut",
-    "drfm": "GDynRF", "abort": "GAbort",
+    "drfm": "GDynRF", "drfm != nullptr": "GDynRF", "abort": "GAbort",
 }
+# variables the translated part changes (IncStep / IncOutNr): a local constant that reads one of them may only be
+# used before the next change
+MUTABLE = ("simulationstep", "outstepnr")
 WHILE = "simulationstep < laststep && !abort"
 AT_EXPR = "h5save > 0 && outstepnr % h5save == 0 ? All : Defaults"
 SKIP_DECL = {"updatetime": None, "h5save": "opts.getSavePhaseSpace()", "outstepnr": "0", "simulationstep": "0"}
@@ -131,6 +226,20 @@ class Tr:
         self.points = []      # labels in order of appearance
         self.skipped = []
         self.at_declared = False
+        self.at_epoch = None
+        self.inlined = []     # local constants replaced by their initialisers
+        self.epoch = 0        # number of changes of a MUTABLE variable (and loop boundaries) passed so far
+        self.local_epoch = {}
+        LOCALS.clear()
+        ON_LOCAL_USE[0] = self.local_used
+
+    def local_used(self, nm):
+        if self.local_epoch.get(nm) is not None and self.local_epoch[nm] != self.epoch:
+            raise TranslateError("local constant %s reads a step counter and is used after the counter changed" % nm)
+
+    def boundary(self):
+        """loop entry / exit: what was computed from the step counters before is stale afterwards"""
+        self.epoch += 1
 
     def stmt_list(self, stmts):
         """list of AST statements -> list of ('call', txt) | ('cond', g, t, e)"""
@@ -155,28 +264,63 @@ class Tr:
                 if v.get("kind") != "VarDecl":
                     raise TranslateError("declaration %s in the simulation part" % v.get("kind"))
                 nm = v.get("name")
-                init = render(kids(v)[0]) if kids(v) else None
+                ini = kids(v)[0] if kids(v) else None
                 if nm == "at":
+                    init = render(ini) if ini is not None else None
                     if init != AT_EXPR:
                         raise TranslateError("`at` is no longer %s but %s" % (AT_EXPR, init))
                     self.at_declared = True
+                    self.at_epoch = self.epoch
                 elif nm in SKIP_DECL:
+                    init = render(ini) if ini is not None else None
                     want = SKIP_DECL[nm]
                     if want is not None and init != want:
                         raise TranslateError("initialiser of %s is %s, expected %s" % (nm, init, want))
                     self.skipped.append("%s = %s" % (nm, init))
                 else:
-                    raise TranslateError("unexpected declaration of %s = %s" % (nm, init))
+                    # a local constant with a pure initialiser is carried as a let-binding: every use is
+                    # replaced by the initialiser (same value: no variable it reads changes in between)
+                    qt = v.get("type", {}).get("qualType", "")
+                    why = None
+                    if ini is None:
+                        why = "it has no initialiser"
+                    elif not (qt.startswith("const ") or " const" in qt) or "*" in qt or "&" in qt:
+                        why = "its type `%s` is not a const value type" % qt
+                    elif v.get("storageClass") == "static":
+                        why = "it is static"
+                    else:
+                        why = impure_reason(ini)
+                    if why:
+                        try:
+                            init = render(ini) if ini is not None else None
+                        except TranslateError:
+                            init = "?"
+                        raise TranslateError("unexpected declaration of %s = %s (%s)" % (nm, init, why))
+                    if nm in LOCALS or nm in MUTABLE or nm in ("hdf_file", "wake_field", "wkm", "drfm", "h5save", "outstep", "renormalize", "abort", "steps", "laststep", "at"):
+                        raise TranslateError("local constant %s shadows a name of the driver" % nm)
+                    init = render(ini)
+                    reads = names_in(ini, set())
+                    for other in list(reads):
+                        if other in LOCALS:
+                            reads |= names_in(LOCALS[other], set())
+                    LOCALS[nm] = ini
+                    self.local_epoch[nm] = self.epoch if (reads & set(MUTABLE)) else None
+                    self.inlined.append("%s = %s" % (nm, init))
             return []
         if k == "IfStmt":
             ks = kids(s)
             if s.get("hasInit") or s.get("hasVar"):
                 raise TranslateError("if with init/variable")
             g = render(ks[0])
+            neg = False
+            if g not in GUARDS and g.startswith("!") and g[1:] in GUARDS:
+                g, neg = g[1:], True          # if (!c) A else B  ==  if (c) B else A
             if g not in GUARDS:
                 raise TranslateError("condition not understood: if (%s)" % g)
             t = self.block(ks[1])
             e = self.block(ks[2]) if len(ks) > 2 else []
+            if neg:
+                t, e = e, t
             return [("cond", GUARDS[g], t, e)]
         if k == "ReturnStmt":
             v = render(kids(s)[0])
@@ -194,8 +338,13 @@ class Tr:
             self.points.append(lab)
             return [("call", "(Point %d)" % (len(self.points) - 1))]
         if txt in CALLS:
-            if txt.endswith(", at)") and not self.at_declared:
-                raise TranslateError("append(.., at) without the `at` declaration")
+            if txt.endswith(", at)"):
+                if not self.at_declared:
+                    raise TranslateError("append(.., at) without the `at` declaration")
+                if self.at_epoch != self.epoch:
+                    raise TranslateError("append(.., at): a step counter changed since `at` was computed")
+            if CALLS[txt] in ("IncOutNr", "IncStep"):
+                self.epoch += 1
             return [("call", CALLS[txt])]
         if any(r.match(txt) for r in STATUS):
             return [("call", "(Print MStatus)")]
@@ -282,9 +431,11 @@ def translate():
         raise TranslateError("loop condition is no longer `%s` but `%s`" % (WHILE, render(cond)))
     tr = Tr()
     pre = tr.stmt_list(sim[:wl[0]])
+    tr.boundary()
     if "simulationstep = 0" not in tr.skipped or "outstepnr = 0" not in tr.skipped:
         raise TranslateError("step counters are not initialised to 0 before the loop: %s" % tr.skipped)
     bodyb = tr.block(wbody)
+    tr.boundary()
     post = tr.stmt_list(sim[wl[0] + 1:])
     if not post or post[-1] != ("call", "Exit"):
         raise TranslateError("the simulation part does not end in return")
@@ -314,7 +465,8 @@ def translate():
     out = []
     out.append("(* GENERATED on every run by translate/mainloop2coq.py from src/main.cpp (main, from")
     out.append("   \"Starting the simulation.\" to return). Do not edit.")
-    out.append("   skipped (no effect on the modelled state): %s *)" % "; ".join(tr.skipped))
+    out.append("   skipped (no effect on the modelled state): %s" % "; ".join(tr.skipped))
+    out.append("   local constants replaced by their (pure) initialisers: %s *)" % ("; ".join(tr.inlined) or "none"))
     out.append("From Coq Require Import List ZArith String.")
     out.append("From Inovesa Require Import Model.Driver.")
     out.append("Import ListNotations.")
